@@ -159,6 +159,15 @@ Definition add_dense (l r : dense) (scale : C) : option dense :=
                       (cmul scale (nth (idx + k * dim2) (d_data r) c0)))
               (seq 0 (nrows * ncols)) |}.
 
+(* add.pyx::iadd_dense(left, right, scale): the in-place variant.  Same two
+   branches as add_dense - one zaxpy over the whole buffer when the orders are
+   equal, otherwise for idx < dim2 a strided zaxpy
+   left[idx*dim1 + k] += scale * right[idx + k*dim2]  with dim1, dim2 taken from
+   the order of `left` - but stored into `left`, which is returned. *)
+Definition iadd_dense (l r : dense) (scale : C) : option dense := add_dense l r scale.
+(* add.pyx::sub_dense = add_dense(left, right, -1) *)
+Definition sub_dense (l r : dense) (minus_one : C) : option dense := add_dense l r minus_one.
+
 (* trace.pyx *)
 Fixpoint trace_rows (r : nat) (rows : list crow) : C :=
   match rows with [] => c0 | row :: t => cadd (row_get r row) (trace_rows (S r) t) end.
@@ -498,6 +507,75 @@ Definition dia_from_csr (m : csr) : dia :=
           (seq 0 (s_nc m))))
         (fold_right zinsert [] (csr_offsets 0 (s_rows m))) |}.
 
+(* ------------------------------------------ add_dia / clean_dia / tidyup_dia *)
+(* add.pyx::add_dia(left, right, scale): walk of the two stored offset lists
+   (heads compared as in the code: equal -> zcopy left + zaxpy scale*right;
+   left <= right -> copy left; else copy right and zscal it unless scale == 1),
+   leftovers appended; if the produced offsets are not strictly increasing
+   clean_dia runs; then tidyup_dia (auto_tidyup).  *)
+Definition axpy_row (scale : C) (l r : list C) : list C :=
+  map (fun p => cadd (fst p) (cmul scale (snd p))) (combine l r).
+Definition scal_row (scale : C) (r : list C) : list C :=
+  if ceqb scale c1 then r else map (cmul scale) r.
+Fixpoint dia_merge (fuel : nat) (scale : C) (A B : list (Z * list C)) : list (Z * list C) :=
+  match fuel with
+  | O => []
+  | S f =>
+    match A, B with
+    | (oa, da) :: ta, (ob, db) :: tb =>
+        if (oa =? ob)%Z then (oa, axpy_row scale da db) :: dia_merge f scale ta tb
+        else if (oa <=? ob)%Z then (oa, da) :: dia_merge f scale ta B
+        else (ob, scal_row scale db) :: dia_merge f scale A tb
+    | _, [] => A
+    | [], _ => map (fun d => (fst d, scal_row scale (snd d))) B
+    end
+  end.
+Fixpoint strictly_inc (l : list Z) : bool :=
+  match l with
+  | x :: t => match t with y :: _ => (x <? y)%Z && strictly_inc t | [] => true end
+  | [] => true
+  end.
+(* dia.pyx::clean_dia, by its result: offsets sorted, data of equal offsets
+   added up (in storage order), slots outside the matrix set to 0.  (The code
+   is a selection sort that marks merged diagonals with the offset `ncols`;
+   the raw result is tied to this description by the correspondence.) *)
+Definition vadd (a b : list C) : list C := map (fun p => cadd (fst p) (snd p)) (combine a b).
+Fixpoint dinsert (d : Z * list C) (L : list (Z * list C)) : list (Z * list C) :=
+  match L with
+  | [] => [d]
+  | e :: t => if (fst d <? fst e)%Z then d :: L
+              else if (fst d =? fst e)%Z then (fst e, vadd (snd e) (snd d)) :: t
+              else e :: dinsert d t
+  end.
+Definition in_rng (nr : nat) (off : Z) (col : nat) : bool :=
+  (0 <=? Z.of_nat col - off)%Z && (Z.of_nat col - off <? Z.of_nat nr)%Z.
+Definition zero_outside (nr : nat) (d : Z * list C) : Z * list C :=
+  (fst d, map (fun col => if in_rng nr (fst d) col then nth col (snd d) c0 else c0)
+              (seq 0 (length (snd d)))).
+Definition clean_diags (nr : nat) (L : list (Z * list C)) : list (Z * list C) :=
+  map (zero_outside nr) (fold_left (fun acc d => dinsert d acc) L []).
+(* tidyup.pyx::tidyup_dia: slots inside the matrix are tidied; a diagonal
+   whose inside slots are all 0 afterwards is dropped (tol > 0 assumed) *)
+Definition tidy_diag (nr : nat) (d : Z * list C) : Z * list C :=
+  (fst d, map (fun col => if in_rng nr (fst d) col then tidy (nth col (snd d) c0)
+                          else nth col (snd d) c0) (seq 0 (length (snd d)))).
+Definition has_data (nr : nat) (d : Z * list C) : bool :=
+  existsb (fun col => in_rng nr (fst d) col && negb (is0 (tidy (nth col (snd d) c0))))
+          (seq 0 (length (snd d))).
+Definition tidyup_diags (nr : nat) (L : list (Z * list C)) : list (Z * list C) :=
+  map (tidy_diag nr) (filter (has_data nr) L).
+
+Definition add_dia (a b : dia) (scale : C) : option dia :=
+  if negb ((a_nr a =? a_nr b) && (a_nc a =? a_nc b)) then None
+  else
+    let M := dia_merge (length (a_diags a) + length (a_diags b)) scale (a_diags a) (a_diags b) in
+    let M' := if strictly_inc (map fst M) then M else clean_diags (a_nr a) M in
+    Some {| a_nr := a_nr a; a_nc := a_nc a; a_diags := tidyup_diags (a_nr a) M' |}.
+Definition clean_dia (a : dia) : dia :=
+  {| a_nr := a_nr a; a_nc := a_nc a; a_diags := clean_diags (a_nr a) (a_diags a) |}.
+Definition tidyup_dia (a : dia) : dia :=
+  {| a_nr := a_nr a; a_nc := a_nc a; a_diags := tidyup_diags (a_nr a) (a_diags a) |}.
+
 (* ---- predicates and tidy-up ------------------------------------------- *)
 (* properties.pyx::isequal_dia after clean_dia (1930127): walk of the two
    sorted offset lists; when either side has no diagonal left, the two tail
@@ -685,11 +763,15 @@ Definition G_neg_dense := neg_dense G gopp.
 Definition G_mul_dense := mul_dense G gmul.
 Definition G_reorder_dense := reorder_dense G g0.
 Definition G_add_dense := add_dense G g0 gadd gmul.
+Definition G_iadd_dense := iadd_dense G g0 gadd gmul.
 Definition G_trace_csr := trace_csr G g0 gadd.
 Definition G_trace_dense := trace_dense G g0 gadd.
 Definition G_add_csr := add_csr G g1 gadd gmul gis0 geqb (gtidy 1).
 Definition G_kron_csr := kron_csr G gmul.
 Definition G_dia_from_csr := dia_from_csr G g0.
+Definition G_add_dia := add_dia G g0 g1 gadd gmul gis0 geqb (gtidy 1).
+Definition G_clean_dia := clean_dia G g0 gadd.
+Definition G_tidyup_dia (tol : Z) := tidyup_dia G g0 gis0 (gtidy tol).
 Definition G_inner_csr := inner_csr G g0 gadd gmul gconj.
 Definition G_inner_op_csr := inner_op_csr G g0 gadd gmul gconj.
 Definition G_expect_csr := expect_csr G g0 gadd gmul gconj.
